@@ -4,7 +4,10 @@
 //! Line: `srv D <id>:<g|b>:<wfail|->:<desc,..>* E <ev>* => <id>=<tok,..>* L <conn>:<desc>* X <alive|exited>`
 //! descs: `e<v>` echo, `E<v>` echo oneway, `f` fail, `F` fail oneway, `s<n>` stream of n items, `g` undecodable.
 //! events: `c<id>` connection handed to the listener, `a<id>:<bytes>` bytes arrive, `x<id>` peer closes,
-//! `r<id>` reads start failing, `p` one poll of the server future.
+//! `r<id>` reads start failing, `k<id>:<n>` the service's reply stream for that client can hand over n more
+//! results (items or its end; until then its `next()` is pending), `p` one poll of the server future.
+//! A declaration may carry a fifth field: the results that client's streams may hand over from the start
+//! (absent = 1000000, i.e. never pending).
 //! tokens: `V<v>:<0|1>` success reply / stream item carrying v with its continues flag, `E` error.
 
 use crate::common::*;
@@ -40,12 +43,35 @@ struct Rep {
 
 struct Svc {
     log: Rc<RefCell<Vec<String>>>,
+    credits: Rc<RefCell<Vec<u64>>>,
+}
+
+/// The service's reply stream: hands over its next result (an item, or its end) only while its client has
+/// credit; otherwise `Pending` (the harness polls by hand, so no waker is kept).
+struct CStream {
+    items: VecDeque<Reply<Rep>>,
+    conn: usize,
+    credits: Rc<RefCell<Vec<u64>>>,
+}
+impl futures_util::Stream for CStream {
+    type Item = Reply<Rep>;
+    fn poll_next(mut self: std::pin::Pin<&mut Self>, _cx: &mut std::task::Context<'_>) -> Poll<Option<Reply<Rep>>> {
+        let conn = self.conn;
+        {
+            let mut cr = self.credits.borrow_mut();
+            if cr[conn] == 0 {
+                return Poll::Pending;
+            }
+            cr[conn] -= 1;
+        }
+        Poll::Ready(self.items.pop_front())
+    }
 }
 impl Service for Svc {
     type MethodCall<'de> = M;
     type ReplyParams<'ser> = Rep;
     type ReplyStreamParams = Rep;
-    type ReplyStream = futures_util::stream::Iter<std::vec::IntoIter<Reply<Rep>>>;
+    type ReplyStream = CStream;
     type ReplyError<'ser> = E;
     async fn handle<'ser>(
         &'ser mut self,
@@ -65,8 +91,10 @@ impl Service for Svc {
                 self.log.borrow_mut().push(format!("{}:s{}{}", t / 1000, n, if *p == 0 { String::new() } else { format!("p{p}") }));
                 // flag patterns: 0 = conventional (true … true, false), 1 = all true, 2 = alternating starting with
                 // true, 3 = no flag at all (items after a non-continuing one are still the service's items)
-                MethodReply::Multi(futures_util::stream::iter(
-                    (0..*n)
+                MethodReply::Multi(CStream {
+                    conn: (*t / 1000) as usize,
+                    credits: self.credits.clone(),
+                    items: (0..*n)
                         .map(|i| {
                             let c = match *p {
                                 0 => Some(i + 1 < *n),
@@ -76,8 +104,8 @@ impl Service for Svc {
                             };
                             Reply::new(Some(Rep { v: i })).set_continues(c)
                         })
-                        .collect::<Vec<_>>(),
-                ))
+                        .collect::<VecDeque<_>>(),
+                })
             }
         }
     }
@@ -149,6 +177,7 @@ pub enum Ev {
     Arrive(usize, Vec<u8>),
     Close(usize),
     ReadErr(usize),
+    Produce(usize, u64),
     Poll,
 }
 
@@ -156,7 +185,11 @@ pub struct ConnScript {
     pub good: bool,
     pub wfail: Option<usize>,
     pub descs: Vec<Desc>,
+    /// results the service's streams for this client may hand over from the start
+    pub credit: u64,
 }
+
+pub const UNLIMITED: u64 = 1_000_000;
 
 pub struct Case {
     pub conns: Vec<ConnScript>,
@@ -189,7 +222,8 @@ fn toks(out: &[u8]) -> Vec<String> {
 pub fn run_case(c: &Case) -> (Vec<Vec<u8>>, Vec<String>, bool) {
     let pending = Rc::new(RefCell::new(VecDeque::new()));
     let log = Rc::new(RefCell::new(vec![]));
-    let server = zlink_core::Server::new(L { pending: pending.clone() }, Svc { log: log.clone() });
+    let credits = Rc::new(RefCell::new(c.conns.iter().map(|cs| cs.credit).collect::<Vec<u64>>()));
+    let server = zlink_core::Server::new(L { pending: pending.clone() }, Svc { log: log.clone(), credits: credits.clone() });
     let mut fut = Box::pin(server.run());
     let nets: Vec<NetRef> = c
         .conns
@@ -207,6 +241,7 @@ pub fn run_case(c: &Case) -> (Vec<Vec<u8>>, Vec<String>, bool) {
             Ev::Arrive(i, b) => nets[*i].borrow_mut().avail.extend(b.iter().copied()),
             Ev::Close(i) => nets[*i].borrow_mut().closed = true,
             Ev::ReadErr(i) => nets[*i].borrow_mut().read_fail = true,
+            Ev::Produce(i, n) => credits.borrow_mut()[*i] += *n,
             Ev::Poll => {
                 if alive {
                     if let Poll::Ready(_) = poll_once(fut.as_mut()) {
@@ -227,11 +262,12 @@ pub fn line(c: &Case, obs: &(Vec<Vec<u8>>, Vec<String>, bool)) -> String {
     for (i, cs) in c.conns.iter().enumerate() {
         let ds: Vec<String> = cs.descs.iter().map(|d| d.tok()).collect();
         s.push_str(&format!(
-            " {}:{}:{}:{}",
+            " {}:{}:{}:{}{}",
             i,
             if cs.good { 'g' } else { 'b' },
             cs.wfail.map(|k| k.to_string()).unwrap_or("-".into()),
-            if ds.is_empty() { "-".to_string() } else { ds.join(",") }
+            if ds.is_empty() { "-".to_string() } else { ds.join(",") },
+            if cs.credit == UNLIMITED { String::new() } else { format!(":{}", cs.credit) }
         ));
     }
     s.push_str(" E");
@@ -241,6 +277,7 @@ pub fn line(c: &Case, obs: &(Vec<Vec<u8>>, Vec<String>, bool)) -> String {
             Ev::Arrive(i, b) => s.push_str(&format!(" a{i}:{}", enc_bytes(b))),
             Ev::Close(i) => s.push_str(&format!(" x{i}")),
             Ev::ReadErr(i) => s.push_str(&format!(" r{i}")),
+            Ev::Produce(i, n) => s.push_str(&format!(" k{i}:{n}")),
             Ev::Poll => s.push_str(" p"),
         }
     }
@@ -279,10 +316,16 @@ pub struct GenOpts {
     pub faults: bool,
     pub streams: bool,
     pub flooders: bool,
+    /// one case in `gated` has reply streams whose items become ready by events (0 = never)
+    pub gated: usize,
 }
 
 pub fn gen_case(rng: &mut Rng, g: &GenOpts) -> Case {
     let nconn = rng.range(1, g.max_conns);
+    // gated: the services' streams hand over results only as `Produce` events allow; `stall`: no final grant,
+    // so streams may still be open (and silent) when the run ends - everybody else must be served regardless
+    let gated = g.streams && g.gated > 0 && rng.chance(1, g.gated);
+    let stall = gated && rng.chance(1, 3);
     let mut conns = vec![];
     let mut bytes: Vec<VecDeque<u8>> = vec![];
     // per-connection fault plan: 0 none, 1 truncate+close, 2 close mid-burst, 3 read error, 4 write failure, 5 big unterminated tail
@@ -320,7 +363,8 @@ pub fn gen_case(rng: &mut Rng, g: &GenOpts) -> Case {
             _ => {}
         }
         plans.push(plan);
-        conns.push(ConnScript { good: plan == 0, wfail, descs });
+        let credit = if gated { rng.below(4) as u64 } else { UNLIMITED };
+        conns.push(ConnScript { good: plan == 0, wfail, descs, credit });
         bytes.push(b.into());
     }
     let mut evs = vec![];
@@ -354,6 +398,9 @@ pub fn gen_case(rng: &mut Rng, g: &GenOpts) -> Case {
             closed[c] = true;
             evs.push(Ev::Close(c));
         }
+        if gated && rng.chance(1, 3) {
+            evs.push(Ev::Produce(rng.below(nconn), rng.range(1, 3) as u64));
+        }
         if rng.chance(1, 3) {
             evs.push(Ev::Poll);
         }
@@ -372,6 +419,15 @@ pub fn gen_case(rng: &mut Rng, g: &GenOpts) -> Case {
         }
         if plans[c] == 3 && !closed[c] {
             evs.push(Ev::ReadErr(c));
+        }
+    }
+    if gated {
+        // a poll with the streams as they are, then (unless the case stalls) everything is made available
+        evs.push(Ev::Poll);
+        for c in 0..nconn {
+            if !stall || rng.chance(1, 3) {
+                evs.push(Ev::Produce(c, 100));
+            }
         }
     }
     evs.push(Ev::Poll);
@@ -397,7 +453,7 @@ pub fn gen_upfront(rng: &mut Rng) -> Case {
                 _ => Desc::Echo(rng.below(1000) as u32, false),
             })
             .collect();
-        conns.push(ConnScript { good: true, wfail: None, descs });
+        conns.push(ConnScript { good: true, wfail: None, descs, credit: UNLIMITED });
         evs.push(Ev::Connect(i));
     }
     evs.push(Ev::Poll);
@@ -425,10 +481,10 @@ pub fn main(o: &Opts, which: &str) {
     let mut rng = Rng::new(o.seed ^ fnv(which.as_bytes()));
     let mut em = Emitter::new(o.index);
     let (n, g) = match which {
-        "srv" => (if o.thorough() { 60_000 } else { 4000 }, GenOpts { max_conns: 4, max_calls: 5, faults: false, streams: true, flooders: false }),
-        "srv-faults" => (if o.thorough() { 60_000 } else { 4000 }, GenOpts { max_conns: 4, max_calls: 5, faults: true, streams: true, flooders: false }),
-        "srv-stream" => (if o.thorough() { 40_000 } else { 3000 }, GenOpts { max_conns: 3, max_calls: 6, faults: true, streams: true, flooders: false }),
-        _ => (if o.thorough() { 40_000 } else { 3000 }, GenOpts { max_conns: 5, max_calls: 4, faults: false, streams: true, flooders: true }),
+        "srv" => (if o.thorough() { 60_000 } else { 4000 }, GenOpts { max_conns: 4, max_calls: 5, faults: false, streams: true, flooders: false, gated: 4 }),
+        "srv-faults" => (if o.thorough() { 60_000 } else { 4000 }, GenOpts { max_conns: 4, max_calls: 5, faults: true, streams: true, flooders: false, gated: 4 }),
+        "srv-stream" => (if o.thorough() { 40_000 } else { 3000 }, GenOpts { max_conns: 3, max_calls: 6, faults: true, streams: true, flooders: false, gated: 2 }),
+        _ => (if o.thorough() { 40_000 } else { 3000 }, GenOpts { max_conns: 5, max_calls: 4, faults: false, streams: true, flooders: true, gated: 4 }),
     };
     for k in 0..n {
         let mut r2 = Rng::new(rng.next());
